@@ -501,3 +501,77 @@ def expand_lock(name, text, mutex='self->_m', lockvar='lock'):
     text = text.replace('%s_held = 0; { if (%s_held) MON_UNLOCK(&%s); return; } }' % (lockvar, lockvar, mutex), '%s_held = 0; return; }' % lockvar)
     text = text + '\n  if (%s_held) MON_UNLOCK(&%s);\n' % (lockvar, mutex)
     return text
+
+
+def _ws(pattern_text):
+    """literal C++ text -> whitespace-insensitive regex"""
+    toks = re.findall(r'\w+|[^\w\s]', pattern_text)
+    return r'\s*'.join(re.escape(t) for t in toks)
+
+
+def drop_pinned(name, text, pinned, optional=()):
+    """Compile-time selections (type aliases, `static constexpr` predicates) are CONFIGURATION for this family: contracts are proved per configuration value, the mapping from C++ types to
+    the value is not a theorem. They may only be dropped from an extracted body if their text is exactly the pinned one; anything else of that kind left in the body is an extraction break
+    (undecided: the selection changed), never silence."""
+    for lit in pinned:
+        text, n = re.subn(_ws(lit), '', text)
+        if n == 0:
+            raise ExtractionBreak('%s: pinned compile-time selection is gone or changed: `%s`' % (name, lit))
+    for lit in optional:
+        text = re.sub(_ws(lit), '', text)
+    rest = re.findall(r'(?:\bstatic\s+constexpr\s+[\w:<>]+\s+\w+\s*=|\busing\s+\w+\s*=)[^;]*;', text)
+    if rest:
+        raise ExtractionBreak('%s: compile-time selection not pinned by the recipe (changed configuration cannot be decided by contracts): %s' % (name, ' '.join(rest[0].split())[:160]))
+    return text
+
+
+C_KEYWORDS = {'if', 'for', 'while', 'switch', 'return', 'sizeof', 'do', 'else'}
+
+
+def auto_helpers(repo, rel, within, c_text, known, rewrite, ctype=None, max_rounds=3):
+    """A refactoring that moves a few lines of a function under contract into a new private helper of the same class must not make the job undecided: every CamelCase callee of the
+    rewritten body that the job neither defines nor declares (`known`) is looked up as a member function of the same class (`within`), extracted with the same rules (`rewrite`)
+    and returned as C definitions to be placed in front of the function (the helper is verified inline, as part of its caller).  Only helpers with scalar / pointer / reference
+    parameters are taken; anything else stays an undefined function (undecided).  Returns (definitions_text, list of Body)."""
+    from vf.extract import find_body, ExtractionBreak as EB
+    defs, bodies = [], []
+    seen = set(known)
+    text = c_text
+    for _ in range(max_rounds):
+        calls = [c for c in dict.fromkeys(re.findall(r'(?<![\w.>])([A-Z]\w*[a-z]\w*)\s*\(', text)) if c not in seen and c not in C_KEYWORDS]
+        if not calls:
+            break
+        text = ''
+        for nm in calls:
+            seen.add(nm)
+            try:
+                b = find_body(repo, rel, r'(?:YACLIB_INLINE\s+|static\s+|inline\s+|\[\[nodiscard\]\]\s+)*(?:void|bool|auto\s*\*?|[\w:]+\s*[*&]?)\s+' + nm + r'\s*\((?:[^()]|\([^()]*\))*\)\s*(?:const\s*)?(?:noexcept\s*)?', nm, within=within)
+            except EB:
+                continue
+            m = re.match(r'\s*(?:YACLIB_INLINE\s+|static\s+|inline\s+|\[\[nodiscard\]\]\s+)*(void|bool|auto\s*\*?|[\w:]+\s*[*&]?)\s+' + nm + r'\s*\(((?:[^()]|\([^()]*\))*)\)', b.sig)
+            if not m:
+                continue
+            ret = m.group(1).replace(' ', '')
+            cret = 'void' if ret == 'void' else 'int' if ret == 'bool' else (ctype or (lambda t: None))(ret) or ('void*' if ret.endswith('*') or ret.endswith('&') else None)
+            if cret is None:
+                continue
+            params = []
+            ok = True
+            for prm in [x.strip() for x in m.group(2).split(',') if x.strip()]:
+                pm = re.match(r'(?:const\s+)?([\w:]+(?:<[^<>]*>)?)\s*([*&]*)\s*(\w+)$', prm)
+                if not pm:
+                    ok = False
+                    break
+                base = pm.group(1).replace('std::', '')
+                cbase = (ctype or (lambda t: None))(base) or ({'size_t': 'size_t', 'uint64_t': 'uint64_t', 'uint32_t': 'uint32_t', 'bool': 'int', 'int': 'int'}.get(base))
+                if cbase is None:
+                    ok = False
+                    break
+                params.append((cbase + ('*' if pm.group(2) and not cbase.endswith('*') else ''), pm.group(3), bool(pm.group(2) == '&')))
+            if not ok:
+                continue
+            body_c = rewrite(nm, b.text, [p[1] for p in params if p[2]])
+            defs.append('static %s %s(%s) {%s}\n' % (cret, nm, ', '.join('%s %s' % (t, n) for t, n, _ in params) or 'void', body_c))
+            bodies.append(b)
+            text += body_c
+    return ''.join(reversed(defs)), bodies
